@@ -333,8 +333,12 @@ func (eng *Engine) runScans(prop string) []*Oblig {
 						if !ok {
 							continue
 						}
-						p, n := typeOwner(al.Type().Underlying().(*types.Pointer).Elem())
-						if p+"."+n != tn {
+						el := al.Type().Underlying().(*types.Pointer).Elem()
+						if _, isPtr := el.(*types.Pointer); isPtr {
+							continue // a cell holding a pointer (captured receiver), not an object of the type
+						}
+						p, n := typeOwner(el)
+						if p+"."+n != tn && shortPkg(p)+"."+n != tn {
 							continue
 						}
 						covered++
